@@ -13,7 +13,7 @@ enum Mut {
 	M_DUP_ANNOUNCE = 0, M_WITHDRAW_UNKNOWN, M_BAD_FLAGS, M_SESSION_CR, M_SESSION_EOD, M_WRONG_VERSION, M_UNKNOWN_TYPE,
 	M_LEN_SMALL, M_LEN_BIG, M_LEN_INCONSISTENT, M_UNEXPECTED_TYPE, M_EOD_OTHER_FORMAT, M_TRUNCATE, M_RECV_FAULT, M_ANN_THEN_WD, M_PREFIX_BADVER, M_N
 };
-enum Idle { I_TIMEOUT = 0, I_INTR = 1, I_CLOSE = 2, I_ERROR = 3, I_NOTIFY = 4, I_STOP_RESTART = 5, I_LATE_INTR = 6, I_STOP_MIDSYNC = 7, I_N = 8 }; // LATE_INTR: EINTR one second after the deadline; STOP_MIDSYNC (in slot 1 or 2): rtr_stop() while the answer of this step is being received / applied (as an idle action: a plain timeout)
+enum Idle { I_TIMEOUT = 0, I_INTR = 1, I_CLOSE = 2, I_ERROR = 3, I_NOTIFY = 4, I_STOP_RESTART = 5, I_LATE_INTR = 6, I_STOP_MIDSYNC = 7, I_STRAY = 8, I_N = 9 }; // STRAY: a PDU other than a Serial Notify arrives while the client waits in ESTABLISHED; // LATE_INTR: EINTR one second after the deadline; STOP_MIDSYNC (in slot 1 or 2): rtr_stop() while the answer of this step is being received / applied (as an idle action: a plain timeout)
 enum SendMode { S_OK = 0, S_PARTIAL = 1, S_ERROR = 2, S_WOULDBLOCK = 3, S_INTR = 4, S_PARTIAL_THEN_ERROR = 5, S_SLOW_PARTIAL = 6, S_N = 7 }; // SLOW_PARTIAL: blocks for the send timeout, then takes 1..3 bytes
 
 // interval value table used for EOD fields and for the configuration (index -> seconds)
